@@ -7,6 +7,13 @@ assert_level_constraint), each against a reference written from the property sta
     most N construction / add_value / add_range / union steps is executed on the real class
     and queried with `in` for every probe value; is_disjoint, union, equality (soundness only)
     on pairs; iteration, iter_values, str and repr must denote the same set.
+    Multi-variable programs: up to three named sets, constructions, add_value / add_range, unions
+    stored under new or existing names (operands in both orders, empty and AnyValue operands),
+    the copy-like ValueSet(*x); EVERY live variable is compared with its own model after EVERY
+    step, so that two sets sharing state (aliasing) are noticed when one of them changes later.
+    In the same spirit the sets returned by allowed_values_for, the list returned by
+    filter_constraint_table and the cells read from CSV are changed and must not affect the
+    table, a second identical call, or each other.
 (2) filter_constraint_table / is_allowed_combination / allowed_values_for against the
     definition "a combination is allowed iff some column contains every given value", the
     property's equivalence  v in allowed_values_for(T,k,vals) <=> is_allowed(T, vals+{k:v}),
@@ -32,6 +39,7 @@ import ast
 import copy
 import itertools
 import multiprocessing
+import operator
 import os
 import random
 import shutil
@@ -43,8 +51,8 @@ from enum import IntEnum
 
 ANY = "<ANY>"  # model of AnyValue: contains everything
 MAX_FAIL_PER_KIND = 3  # replay files written per kind of failure
-# the machine is shared: the quick tier uses at most 8 worker processes (VERIF_C17_NPROC overrides; thorough tier: 16, see check_c17)
-NPROC = max(1, min(int(os.environ.get("VERIF_C17_NPROC", "8")), os.cpu_count() or 1))
+# the machine is shared: the quick tier uses at most 6 worker processes (VERIF_C17_NPROC overrides; thorough tier: 16, see check_c17)
+NPROC = max(1, min(int(os.environ.get("VERIF_C17_NPROC", "6")), os.cpu_count() or 1))
 
 
 # ------------------------------------------------------------------------------------------------
@@ -373,6 +381,259 @@ def _w_chains(job):
     return n_eval, n_two, n_three, fails
 
 
+# ------------------------------------------------------------------------------------------------
+# multi-variable programs: several named value sets, every variable compared after every step
+# (aliasing between value sets only shows when one of them is changed later)
+# ------------------------------------------------------------------------------------------------
+_PV_NAMES = ("a", "b", "c")
+
+
+class _PvAlphabet(object):
+    """The operations of the multi-variable programs over the universe 0..U-1.
+    cons: constructor argument tuples (values and (lo, hi) ranges), each used as ValueSet(*args); AnyValue() besides.
+    addv / addr: the arguments of add_value / add_range."""
+
+    def __init__(self, U, reduced):
+        self.U = U
+        ranges = [(lo, hi) for lo in range(U) for hi in range(lo, U)]
+        if reduced:
+            self.cons = [(), (0,), (U - 1,), ((1, 2),)]
+            self.addv = [0, 1, U - 1]
+            self.addr = [(0, 1), (1, 2), (U - 2, U - 1)]
+        else:
+            self.cons = [()] + [(v,) for v in range(U)] + [(r,) for r in ranges]
+            self.addv = list(range(U))
+            self.addr = ranges
+
+
+def _pv_args_model(args):
+    out = set()
+    for a in args:
+        if isinstance(a, tuple):
+            out.update(range(a[0], a[1] + 1))
+        else:
+            out.add(a)
+    return frozenset(out)
+
+
+def _pv_ops(models, alpha, maxvars):
+    """Every operation applicable when the variables in `models` are live (names are introduced in the order a, b, c)."""
+    live = [n for n in _PV_NAMES if n in models]
+    targets = live + ([_PV_NAMES[len(live)]] if len(live) < maxvars else [])
+    for z in targets:
+        for c in alpha.cons:
+            yield ("new", z, c)
+        yield ("new", z, "ANY")
+    for x in live:
+        for v in alpha.addv:
+            yield ("addv", x, v)
+        for r in alpha.addr:
+            yield ("addr", x, r[0], r[1])
+    for z in targets:
+        for x in live:
+            for y in live:
+                yield ("plus", z, x, y)
+            for lit in ("E", "ANY"):  # anonymous empty ValueSet() / AnyValue() operands, on either side
+                yield ("plus", z, x, lit)
+                yield ("plus", z, lit, x)
+            if models[x] is not ANY:
+                yield ("copy", z, x)
+
+
+def _pv_model_step(models, op):
+    """What the statement says the variables denote after the operation: only the named target changes."""
+    m = dict(models)
+    kind = op[0]
+    if kind == "new":
+        m[op[1]] = ANY if op[2] == "ANY" else _pv_args_model(op[2])
+    elif kind == "addv":
+        if m[op[1]] is not ANY:
+            m[op[1]] = m[op[1]] | frozenset([op[2]])
+    elif kind == "addr":
+        if m[op[1]] is not ANY:
+            m[op[1]] = m[op[1]] | frozenset(range(op[2], op[3] + 1))
+    elif kind == "plus":
+        X = frozenset() if op[2] == "E" else ANY if op[2] == "ANY" else m[op[2]]
+        Y = frozenset() if op[3] == "E" else ANY if op[3] == "ANY" else m[op[3]]
+        m[op[1]] = ANY if (X is ANY or Y is ANY) else (X | Y)
+    elif kind == "copy":
+        m[op[1]] = m[op[2]]
+    else:
+        raise ValueError(op)
+    return m
+
+
+def _pv_real_step(ct, env, op):
+    kind = op[0]
+    if kind == "new":
+        env[op[1]] = ct.AnyValue() if op[2] == "ANY" else ct.ValueSet(*op[2])
+    elif kind == "addv":
+        env[op[1]].add_value(op[2])
+    elif kind == "addr":
+        env[op[1]].add_range(op[2], op[3])
+    elif kind == "plus":
+        X = ct.ValueSet() if op[2] == "E" else ct.AnyValue() if op[2] == "ANY" else env[op[2]]
+        Y = ct.ValueSet() if op[3] == "E" else ct.AnyValue() if op[3] == "ANY" else env[op[3]]
+        # `a += b` is spelt as such (the class has no __iadd__ today: Python falls back to a = a + b)
+        env[op[1]] = operator.iadd(X, Y) if op[1] == op[2] else X + Y
+    elif kind == "copy":
+        # the copy-like construction: iteration yields values and (lo, hi) tuples, the documented constructor arguments
+        env[op[1]] = ct.ValueSet(*env[op[2]])
+
+
+def _pv_text(op):
+    lit = {"E": "ValueSet()", "ANY": "AnyValue()"}
+    kind = op[0]
+    if kind == "new":
+        return "%s = %s" % (op[1], "AnyValue()" if op[2] == "ANY" else "ValueSet(%s)" % ", ".join(map(repr, op[2])))
+    if kind == "addv":
+        return "%s.add_value(%r)" % (op[1], op[2])
+    if kind == "addr":
+        return "%s.add_range(%r, %r)" % (op[1], op[2], op[3])
+    if kind == "plus":
+        if op[1] == op[2]:
+            return "%s += %s" % (op[1], lit.get(op[3], op[3]))
+        return "%s = %s + %s" % (op[1], lit.get(op[2], op[2]), lit.get(op[3], op[3]))
+    return "%s = ValueSet(*%s)" % (op[1], op[2])
+
+
+def _pv_check(ct, env, models, probes):
+    """Every live variable against its model: pairwise is_disjoint / == first (they must not change anything), then
+    membership over the universe +-1, iteration, iter_values and str of each variable. -> list of (kind, expected, observed)"""
+    bad = []
+    names = [n for n in _PV_NAMES if n in env]
+    for x in names:
+        for y in names:
+            mx, my = models[x], models[y]
+            if mx is ANY and my is ANY:
+                exp = False
+            elif mx is ANY:
+                exp = not my  # everything meets every non-empty set
+            elif my is ANY:
+                exp = not mx
+            else:
+                exp = not (mx & my)
+            got = env[x].is_disjoint(env[y])
+            if got is not exp:
+                bad.append(("multivar-is_disjoint", {"%s.is_disjoint(%s)" % (x, y): exp}, got))
+            e = env[x] == env[y]
+            ne = env[x] != env[y]
+            same = (mx is ANY and my is ANY) or (mx is not ANY and my is not ANY and mx == my)
+            if e is ne or (e and not same):
+                bad.append(("multivar-eq", {"%s == %s" % (x, y): same}, {"==": e, "!=": ne}))
+    for n in names:
+        o, m = env[n], models[n]
+        if m is ANY:
+            if not isinstance(o, ct.AnyValue) or not all(p in o for p in probes):
+                bad.append(("multivar-membership", {n: "AnyValue"}, repr(o)))
+            continue
+        got = [p for p in probes if p in o]
+        if isinstance(o, ct.AnyValue) or got != [p for p in probes if p in m]:
+            bad.append(("multivar-membership", {n: sorted(m)}, {n: got, "repr": repr(o)}))
+            continue
+        it = _expand_items(list(o))
+        iv = frozenset(o.iter_values())
+        st = str(o)
+        try:
+            ps = _parse_str(st, "int")
+        except Exception as e:
+            ps = "unparsable (%r)" % (e,)
+        if it != m or iv != m or ps != m:
+            bad.append(("multivar-views", {n: sorted(m)}, {"iter": sorted(it), "iter_values": sorted(iv), "str": st}))
+    return bad
+
+
+def _pv_run(ct, ops, probes, fails, universe, check_every_step):
+    """Run one program on the real class; compare all variables after the last step (or after every step)."""
+    env = {}
+    models = {}
+    for i, op in enumerate(ops):
+        models = _pv_model_step(models, op)
+        try:
+            _pv_real_step(ct, env, op)
+            bad = _pv_check(ct, env, models, probes) if (check_every_step or i == len(ops) - 1) else []
+        except Exception:
+            bad = [("multivar-exception", "no exception", traceback.format_exc(limit=4))]
+        if bad:
+            upto = ops[: i + 1]
+            for kind, exp, obs in bad[:2]:
+                fails.add(kind, lambda: {
+                    "what": "%s: after a sequence of constructions, additions and unions over several value sets, a variable no longer denotes the union of what was added to IT "
+                            "(every variable is compared after every step)" % kind,
+                    "inputs": {"program": [_pv_text(o) for o in upto], "universe": universe},
+                    "expected": {"models": dict((n, "any" if m is ANY else sorted(m)) for n, m in models.items()), "check": exp}, "observed": obs})
+            return False
+    return True
+
+
+def _pv_sensitive(ops):
+    """a union / copy-like construction followed (later) by an addition: where aliasing would show"""
+    seen = False
+    for op in ops:
+        if op[0] in ("plus", "copy"):
+            seen = True
+        elif seen and op[0] in ("addv", "addr"):
+            return True
+    return False
+
+
+def _w_multivar(job):
+    """('exh', U, maxvars, L, reduced, only_sensitive, part, nparts): all programs of exactly L steps (prefixes are the
+    programs of the shorter lengths, run as such), only the final state compared;  ('rnd', U, maxvars, lo, hi, seed): seeded
+    random programs of 5..10 steps, compared after every step."""
+    ct = _load()
+    fails = _Fails()
+    n_run = n_sens = 0
+    if job[0] == "rnd":
+        _, U, maxvars, lo, hi, seed = job
+        alpha = _PvAlphabet(U, False)
+        alpha.cons = alpha.cons + [(0, (U - 2, U - 1)), ((0, 1), U - 1), (1, (0, 2), (2, U - 1))]
+        probes = list(range(-1, U + 1))
+        for i in range(lo, hi):
+            rng = random.Random(seed * 86028121 + i)
+            models = {}
+            ops = []
+            for _ in range(rng.randint(5, 10)):
+                cands = list(_pv_ops(models, alpha, maxvars))
+                # unions, copies and additions are what matters: draw the kind first, then the operation
+                kinds = sorted(set(o[0] for o in cands))
+                k = rng.choice(kinds)
+                op = rng.choice([o for o in cands if o[0] == k])
+                ops.append(op)
+                models = _pv_model_step(models, op)
+            n_run += 1
+            n_sens += 1 if _pv_sensitive(ops) else 0
+            _pv_run(ct, ops, probes, fails, "0..%d" % (U - 1), True)
+        return n_run, n_sens, fails
+    _, U, maxvars, L, reduced, only_sensitive, part, nparts = job
+    alpha = _PvAlphabet(U, reduced)
+    probes = list(range(-1, U + 1))
+    counter = [0]
+
+    def rec(models, ops):
+        if len(ops) == L:
+            if only_sensitive and not (ops[-1][0] in ("addv", "addr") and any(o[0] in ("plus", "copy") for o in ops[:-1])):
+                return
+            return leaf(ops)
+        for op in _pv_ops(models, alpha, maxvars):
+            if len(ops) == min(1, L - 1):  # the jobs share the work by the second operation (the first when L == 1)
+                counter[0] += 1
+                if counter[0] % nparts != part:
+                    continue
+            if only_sensitive and len(ops) == L - 1 and op[0] not in ("addv", "addr"):
+                continue
+            rec(_pv_model_step(models, op), ops + [op])
+
+    def leaf(ops):
+        nonlocal n_run, n_sens
+        n_run += 1
+        n_sens += 1 if _pv_sensitive(ops) else 0
+        _pv_run(ct, ops, probes, fails, "0..%d" % (U - 1), False)
+
+    rec({}, [])
+    return n_run, n_sens, fails
+
+
 def _small_sets(ct, atoms, max_atoms, lo=0, hi=None):
     """[(object, model, text)] for the sequences number lo..hi-1 of the family of all sequences of <= max_atoms
     atoms, built in turn through the constructor, through the methods, through right unions (vs + ValueSet(atom)) and
@@ -553,15 +814,46 @@ def _part_valueset(rep, tier, seed):
         c_eval, True, distinct=c_two,
         note="distinct = programs whose last atom overlaps at least two of the earlier ranges (%d overlap at least three); 4 and 5 operations" % c_three)
 
+    # ---- multi-variable programs (aliasing between value sets)
+    U = 4
+    nparts = NPROC * 3
+    jobs = [("exh", U, 3, 1, False, False, 0, 1), ("exh", U, 3, 2, False, False, 0, 1)]
+    jobs += [("exh", U, 3, 3, False, False, i, nparts) for i in range(nparts)]
+    jobs += [("exh", U, 3, 4, True, not thorough, i, nparts) for i in range(nparts)]
+    if thorough:
+        jobs += [("exh", U, 3, 5, True, True, i, nparts * 4) for i in range(nparts * 4)]
+    nrnd = 30000 if thorough else 3000
+    step = max(1, nrnd // nparts)
+    jobs += [("rnd", 5, 3, lo, min(nrnd, lo + step), seed) for lo in range(0, nrnd, step)]
+    mv = {"exh": [0, 0], "rnd": [0, 0]}
+    for (job, (nr, ns, fl)) in zip(jobs, _ordered(_w_multivar, jobs)):
+        mv[job[0]][0] += nr
+        mv[job[0]][1] += ns
+        total.merge(fl)
+    rep.add_bounded(
+        "C17.valueset.multivar",
+        "Programs over up to 3 named value sets a, b, c (universe 0..%d). Operations: x = ValueSet(<nothing | one value | one range>), x = AnyValue(), x.add_value(v), "
+        "x.add_range(lo, hi), z = x + y for every pair of live variables (also x + x) with the result stored under a new or ANY existing name (z = x is spelt x += y), "
+        "z = x + ValueSet(), z = ValueSet() + x, z = x + AnyValue(), z = AnyValue() + x, and the copy-like z = ValueSet(*x). EXHAUSTIVE: every program of <= 3 steps over the "
+        "full alphabet (all values, all ranges); every program of 4 steps %sover a reduced alphabet (constructions: empty, 0, %d, (1, 2), AnyValue; add_value 0, 1, %d; add_range "
+        "(0, 1), (1, 2), (%d, %d))%s. SAMPLED (seeded): %d programs of 5..10 steps over 0..4 with constructions of up to 3 atoms. After EVERY step EVERY live variable is compared "
+        "with its own model (a Python frozenset or 'any'; an operation changes the model of its target only): x.is_disjoint(y) and == / != for all ordered pairs incl. x with "
+        "itself, then `in` over -1..U, iteration, iter_values and str of every variable"
+        % (U - 1, "whose last step is an addition and that contain an earlier union or copy, " if not thorough else "", U - 1, U - 1, U - 2, U - 1,
+           "; every such 5-step program ending in an addition after a union or copy" if thorough else "", mv["rnd"][0]),
+        mv["exh"][0] + mv["rnd"][0], False, distinct=mv["exh"][1] + mv["rnd"][1],
+        samples=_samples_multivar(ct),
+        note="%d exhaustive programs (the prefixes of a program are the shorter programs, each run and compared as such) + %d random ones; distinct = programs in which an addition "
+             "follows a union or a copy-like construction (where aliasing between two sets would show)" % (mv["exh"][0], mv["rnd"][0]))
+
     # ---- pairs: is_disjoint, union, equality soundness
-    fam2 = 1 + na + na * na
-    step = max(1, fam2 // (NPROC * 4))
-    jobs = [(uname, 2, (lo, min(fam2, lo + step)), 2, seed) for lo in range(0, fam2, step)]
-    # (quick tier: the 3-atom operands over a universe one value smaller)
+    # (quick tier: the pair families over a universe one value smaller than the programs)
     n3 = n if thorough else n - 1
     uname3 = "int%d" % n3
     na3 = len(_universe(uname3)[0])
     fam2_3 = 1 + na3 + na3 * na3
+    step = max(1, fam2_3 // (NPROC * 4))
+    jobs = [(uname3, 2, (lo, min(fam2_3, lo + step)), 2, seed) for lo in range(0, fam2_3, step)]
     fam3 = fam2_3 + na3 ** 3
     step3 = max(1, (fam3 - fam2_3) // (NPROC * 4))
     jobs += [(uname3, 3, (lo, min(fam3, lo + step3)), 1, seed) for lo in range(fam2_3, fam3, step3)]
@@ -574,10 +866,10 @@ def _part_valueset(rep, tier, seed):
         total.merge(fl)
     rep.add_bounded(
         "C17.valueset.pairs",
-        "EXHAUSTIVE: all pairs (A, B) of ValueSets with A, B each built from <= 2 atoms over the integer universe 0..%d, and A from exactly 3 atoms with B from <= 1 atom over "
+        "EXHAUSTIVE: all pairs (A, B) of ValueSets with A, B each built from <= 2 atoms, and A from exactly 3 atoms with B from <= 1 atom, over the integer universe "
         "0..%d (the operands built in turn by the constructor, by add_value/add_range, by right unions and by left unions) "
         "(also <= 2 x <= 2 atoms over the string and mixed universes): A.is_disjoint(B) and B.is_disjoint(A) == (intersection empty); A + B contains exactly the union (probes -1..%d); "
-        "A == B implies equal sets and != is its negation; equal objects hash equally; no operand is changed" % (n - 1, n3 - 1, n),
+        "A == B implies equal sets and != is its negation; equal objects hash equally; no operand is changed" % (n3 - 1, n3),
         n_pairs, True, distinct=n_overlap,
         samples=_samples_pairs(ct),
         note="distinct = pairs with a non-empty intersection. Equality is only checked for soundness: the property and the docstrings do not promise that equal sets compare "
@@ -932,6 +1224,30 @@ def _validator_walks(vmods, model, ttext, keys, u, fails, counters, rich, rot):
     walk(None, OrderedDict(), frozenset(), [], 0)
 
 
+class _Poisoned(Exception):
+    """a result aliased a cell of the (shared) enumerated cells and the probe has changed it: the worker rebuilds its cells"""
+
+
+def _alias_probe(ct, real, model, k, vals, S, u, fails, inputs0, counters):
+    """The result of allowed_values_for must be the caller's own set: adding a value to it must change neither a cell of
+    the table nor the result of a second, identical call."""
+    counters["alias_probes"] += 1
+    marker = u + 7  # in no cell and never queried elsewhere
+    before = [x in S for x in range(u + 1)]
+    S.add_value(marker)
+    hit = ["column %d key %r" % (ci, kk) for ci, col in enumerate(real) for kk, cell in col.items() if not isinstance(cell, ct.AnyValue) and marker in cell]
+    S2 = ct.allowed_values_for(real, k, dict(vals))
+    again = isinstance(S2, ct.ValueSet) and not isinstance(S2, ct.AnyValue) and marker not in S2 and [x in S2 for x in range(u + 1)] == before and S2 is not S
+    if hit or not again:
+        fails.add("table-result-aliased", lambda: {
+            "what": "the set returned by allowed_values_for is not independent of the table / of a second identical call: after result.add_value(%d) %s" % (
+                marker, ("the table cell(s) %s contain %d" % (", ".join(hit), marker)) if hit else "a second identical call is affected"),
+            "inputs": dict(inputs0, key=k, values=dict(vals), then="S.add_value(%d)" % marker), "expected": "table and second result unchanged",
+            "observed": {"cells containing the marker": hit, "second result": repr(S2)}})
+        if hit:
+            raise _Poisoned()
+
+
 def _check_table(ct, vmods, real, model, ttext, keys, u, fails, counters, vmode=1, rot=0):
     """All queries on one table.  Domain of already-chosen values: 0..u-1; of the queried value: 0..u."""
     nokey = "c17_key_in_no_column"
@@ -971,6 +1287,7 @@ def _check_table(ct, vmods, real, model, ttext, keys, u, fails, counters, vmode=
         return ia
 
     r = len(keys)
+    deep = vmode == 2
     has_any = any(c is ANY for col in model for c in col.values())
     for ki, k in enumerate(keys + [nokey]):
         others = [x for x in keys if x != k]
@@ -988,6 +1305,8 @@ def _check_table(ct, vmods, real, model, ttext, keys, u, fails, counters, vmode=
             vals = dict(items)
             counters["avf"] += 1
             S = ct.allowed_values_for(real, k, dict(vals))
+            if deep and isinstance(S, ct.ValueSet) and not isinstance(S, ct.AnyValue):
+                _alias_probe(ct, real, model, k, vals, S, u, fails, inputs0, counters)
             if not vals:
                 # "nothing chosen" through the default argument as well
                 S0 = ct.allowed_values_for(real, k)
@@ -1026,6 +1345,24 @@ def _check_table(ct, vmods, real, model, ttext, keys, u, fails, counters, vmode=
                                                   "inputs": dict(inputs0, key=k, values=vals), "expected": mv is ANY,
                                                   "observed": {"substituted": S2 is sub, "default result is AnyValue": isinstance(S, ct.AnyValue)}})
     allowed_real({})
+
+    if deep:
+        # the list returned by filter_constraint_table belongs to the caller (its entries are, by design, the table's own columns)
+        for vals in ({}, dict((kk, 0) for kk in keys[:1])):
+            counters["alias_probes"] += 1
+            n0 = len(real)
+            flt = ct.filter_constraint_table(real, dict(vals))
+            n1 = len(flt)
+            if flt is real:
+                shared = True
+            else:
+                flt.append({NOKEY: ct.ValueSet(0)})
+                shared = len(real) != n0 or len(ct.filter_constraint_table(real, dict(vals))) != n1
+            if shared:
+                fails.add("table-result-aliased", lambda: {"what": "the list returned by filter_constraint_table is the input table itself or is shared between calls",
+                                                   "inputs": dict(inputs0, values=dict(vals), then="result.append(...)"), "expected": "input table and a second result unchanged",
+                                                   "observed": {"result is the input list": flt is real, "len(table)": len(real)}})
+                break
 
     if vmode and vmods and not has_catch_all:
         _install_table(vmods, real)
@@ -1076,6 +1413,8 @@ def _w_tables(job):
                 counters["rich_tables"] += 1
             try:
                 _check_table(ct, vmods, real, model, ttext, keys, u, fails, counters, vmode, kept // 2)
+            except _Poisoned:
+                cells = _cell_variants(ct, u)  # (the failure is recorded; the shared cells were changed through the alias)
             except Exception:
                 fails.add("table-exception", lambda: {"what": "unexpected exception from the constraint-table functions", "inputs": {"table": ttext},
                                               "expected": "no exception", "observed": traceback.format_exc(limit=6)})
@@ -1091,7 +1430,7 @@ def _w_tables(job):
     return counters, fails
 
 
-_TABLE_COUNTERS = ("tables", "queries", "avf", "validator", "nontrivial", "rich_tables", "repeated", "ambiguous", "ambiguous_accepted")
+_TABLE_COUNTERS = ("tables", "queries", "avf", "validator", "nontrivial", "rich_tables", "repeated", "ambiguous", "ambiguous_accepted", "alias_probes")
 
 
 def _split_jobs(ncols, nkeys, u, specials, sym, seed, sample=None, pieces=None, vstride=1):
@@ -1154,14 +1493,14 @@ def _part_tables(rep, tier, seed):
         plain += [(2, 2, 4, False, None, 32), (2, 3, 3, False, None, 128), (2, 3, 4, False, 250000, 256), (2, 2, 5, True, None, 128), (3, 2, 3, True, None, 32),
                   (3, 2, 4, False, 300000, 256), (3, 3, 2, False, None, 64), (3, 3, 3, False, 100000, 128)]
     else:
-        plain += [(2, 2, 4, True, None, 48), (2, 3, 2, False, None, 4), (2, 3, 3, False, 5000, 32), (2, 3, 4, False, 2000, 64), (3, 2, 3, True, None, 48),
+        plain += [(2, 2, 4, True, None, 48), (2, 3, 2, False, None, 4), (2, 3, 3, False, 5000, 32), (2, 3, 4, False, 2000, 64), (3, 2, 3, False, 15000, 24),
                   (3, 3, 3, False, 1000, 16)]
     sp = ("ANY", "MISSING")
     special += [(1, 2, 3, False, None, 1), (2, 1, 3, False, None, 1), (2, 2, 3, False, None, 16)]
     if thorough:
         special += [(2, 3, 2, False, None, 32), (3, 2, 2, False, None, 16), (2, 3, 3, False, 150000, 128), (3, 3, 2, False, 150000, 128), (3, 2, 3, False, 200000, 128)]
     else:
-        special += [(2, 3, 2, True, None, 48), (3, 2, 2, True, None, 8), (2, 3, 3, False, 3000, 32)]
+        special += [(2, 3, 2, False, 10000, 24), (3, 2, 2, True, None, 8), (2, 3, 3, False, 3000, 32)]
 
     def run(configs, specials):
         jobs, descr = [], []
@@ -1202,9 +1541,11 @@ def _part_tables(rep, tier, seed):
         "value, the earlier values and an allowed_values set equal to {x: prefix + {key: x} allowed}; the recorded values are exactly the accepted ones",
         agg["tables"], not sampled, distinct=agg["nontrivial"],
         samples=_samples_tables(ct),
-        note="evaluations = tables; on them %d filter/is_allowed queries, %d allowed_values_for calls, %d assert_level_constraint calls (%d tables with rich walks; %d calls give a "
+        note="evaluations = tables; on the tables with rich walks also %d aliasing probes (a value is added to the set returned by allowed_values_for: no table cell and no second, "
+             "identical call may be affected; the list returned by filter_constraint_table is appended to: the table and a second call unaffected); on all tables "
+             "%d filter/is_allowed queries, %d allowed_values_for calls, %d assert_level_constraint calls (%d tables with rich walks; %d calls give a "
              "key again, of which %d with another value where the two readings of the statement differ: the real function accepted %d of those). distinct = tables with >= 2 different columns"
-             % (agg["queries"], agg["avf"], agg["validator"], agg["rich_tables"], agg["repeated"], agg["ambiguous"], agg["ambiguous_accepted"]))
+             % (agg["alias_probes"], agg["queries"], agg["avf"], agg["validator"], agg["rich_tables"], agg["repeated"], agg["ambiguous"], agg["ambiguous_accepted"]))
     rep.extra_coverage["C17_validator_synthetic_tables"] = dict((k, agg[k]) for k in ("validator", "rich_tables", "repeated", "ambiguous", "ambiguous_accepted"))
     agg2, fl, descr = run(special, sp)
     total.merge(fl)
@@ -1216,7 +1557,7 @@ def _part_tables(rep, tier, seed):
         "any_value substitute is returned exactly when AnyValue is allowed; the one-at-a-time validator check as above on the tables without a catch-all column",
         agg2["tables"], not any(c[4] for c in special), distinct=agg2["nontrivial"],
         note="evaluations = tables; %d filter/is_allowed queries, %d allowed_values_for calls, %d assert_level_constraint calls (%d tables with rich walks, %d calls giving a key again)"
-             % (agg2["queries"], agg2["avf"], agg2["validator"], agg2["rich_tables"], agg2["repeated"]))
+             % (agg2["queries"], agg2["avf"], agg2["validator"], agg2["rich_tables"], agg2["repeated"]) + "; %d aliasing probes of allowed_values_for / filter results" % agg2["alias_probes"])
     return total
 
 
@@ -1374,6 +1715,30 @@ def _compare_csv(ct, real, model, fails, inputs, kindprefix):
     return n
 
 
+def _csv_alias_probe(ct, real, model, fails, inputs, kindprefix, path=None):
+    """Every cell of a table read from CSV must be its own set: a distinct marker value is added to every (non-'any') cell,
+    then no cell may contain another cell's marker (for big tables: another cell of the same row, where dittos copy).
+    With `path`: the file is read again afterwards and must still give what is written in it.  -> cells probed"""
+    if not isinstance(real, list) or len(real) != len(model) or any(sorted(rc.keys()) != sorted(mc.keys()) for rc, mc in zip(real, model)):
+        return 0  # (already reported by the comparison)
+    cells = [(ci, k, rc[k]) for ci, rc in enumerate(real) for k in sorted(rc) if isinstance(rc[k], ct.ValueSet) and not isinstance(rc[k], ct.AnyValue)]
+    base = 10 ** 6
+    for idx, (ci, k, cell) in enumerate(cells):
+        cell.add_value(base + idx)
+    small = len(cells) <= 40
+    for idx, (ci, k, cell) in enumerate(cells):
+        foreign = [(cj, kj) for j, (cj, kj, _) in enumerate(cells) if j != idx and (small or kj == k) and (base + j) in cell]
+        if foreign or (base + idx) not in cell:
+            fails.add(kindprefix + "-cell-aliased", lambda: {
+                "what": "cells of the table read from CSV are not independent sets: after adding a distinct value to every cell, a cell contains the value added to another one",
+                "inputs": dict(inputs, column=ci, key=k, then="every cell c_i.add_value(%d + i)" % base), "expected": "only its own marker",
+                "observed": {"also contains the markers of (column, key)": foreign[:6], "own marker present": (base + idx) in cell}})
+    if path is not None:
+        again = ct.read_constraints_from_csv(path)
+        _compare_csv(ct, again, model, fails, dict(inputs, note="second read of the same file, after the cells of the first result were changed"), kindprefix + "-reread")
+    return len(cells)
+
+
 def _gen_csv(rng):
     """Own writer: a random table in the documented format. -> (text, description of features used)"""
     ncols = rng.randint(1, 5)
@@ -1509,7 +1874,7 @@ def _w_csv_grid(job):
     nrows, ncols, lo, hi, nrot, tmpdir = job  # nrot: number of styles per table (rotating with the table), 0 = all 40 layouts
     ct = _load()
     fails = _Fails()
-    n_files = n_cells = 0
+    n_files = n_cells = n_alias = 0
     ditto_seen = {}
     path = os.path.join(tmpdir, "g%d_%d_%d_%d.csv" % (nrows, ncols, lo, os.getpid()))
     for code in range(lo, hi):
@@ -1527,12 +1892,14 @@ def _w_csv_grid(job):
             try:
                 real = ct.read_constraints_from_csv(path)
                 n_cells += _compare_csv(ct, real, written, fails, inputs, "csvgrid")
+                n_alias += _csv_alias_probe(ct, real, written, fails, inputs, "csvgrid", path if n_files % 8 == 0 else None)
             except Exception:
                 tb = traceback.format_exc(limit=6)
                 fails.add("csvgrid-exception", lambda: {"what": "read_constraints_from_csv raised on a table in the documented format", "inputs": inputs,
                                                         "expected": "no exception", "observed": tb})
     if os.path.exists(path):
         os.unlink(path)
+    ditto_seen["cells probed for aliasing"] = n_alias
     return n_files, n_cells, ditto_seen, fails
 
 
@@ -1563,6 +1930,7 @@ def _w_csv(job):
         try:
             real = ct.read_constraints_from_csv(path)
             n_cells += _compare_csv(ct, real, model, fails, inputs, "csv")
+            _csv_alias_probe(ct, real, model, fails, inputs, "csv", path)
         except Exception:
             fails.add("csv-exception", lambda: {"what": "read_constraints_from_csv raised on a table in the documented format", "inputs": inputs,
                                         "expected": "no exception", "observed": traceback.format_exc(limit=6)})
@@ -1594,7 +1962,8 @@ def _part_csv(rep, tier, seed):
         "SAMPLED (seeded, seed=%d): %d CSV texts from an own writer: 1..5 value columns x 1..7 key rows plus interleaved empty / '#'-comment rows; cells: empty, 'any', ditto "
         "(\", “, ”, \"\" or \" with blanks; in any value column including the first; a third of the files ditto-heavy), or 1..4 comma-separated tokens each a non-negative integer, an inclusive range lo-hi with lo <= hi, TRUE or FALSE; random "
         "quoting, LF or CRLF; rectangular rows, unique keys. Each file is read by read_constraints_from_csv and by an independent reader of the documented format; compared "
-        "cell by cell: AnyValue vs ValueSet, membership on every written/read endpoint +-1 and True/False, and the Python types of the values read (bool vs int)" % (seed, nf),
+        "cell by cell: AnyValue vs ValueSet, membership on every written/read endpoint +-1 and True/False, and the Python types of the values read (bool vs int); then a "
+        "distinct value is added to every cell (no cell may contain another cell's) and the file is read again (must still give what is written)" % (seed, nf),
         nf, False, distinct=nc,
         samples=_samples_csv(ct, seed),
         note="distinct = cells compared; files using each feature: %s" % ", ".join("%s: %d" % kv for kv in sorted(feats.items())))
@@ -1628,7 +1997,8 @@ def _part_csv(rep, tier, seed):
         "(nothing / a '#' comment row / a blank line / a row of empty cells / a row of comment cells between the key rows; minimal or full quoting; LF or CRLF; with or without a "
         "leading comment row) with rotating spellings (blanks around cells and after commas). read_constraints_from_csv must return, per value column and key, exactly what was "
         "written (a ditto: the content of the value cell to its left in the same row; in the first value column: nothing), compared as in C17.csv.random; the independent reader "
-        "must agree with the writer on every file (else checker error)"
+        "must agree with the writer on every file (else checker error). Then a distinct value is added to every cell read and no cell may contain the value added to another "
+        "one (cells are independent sets, a ditto is a copy); every 8th file is read a second time afterwards and must again give what is written"
         % (", ".join("%dx%d" % (a, b) for a, b, _ in grids), ", ".join("%dx%d: %s" % (a, b, c or "all") for a, b, c in grids)),
         gf, True, distinct=gc,
         note="distinct = cells compared; ditto cells by position: %s" % ", ".join("%s: %d" % kv for kv in sorted(dseen.items())))
@@ -1652,6 +2022,11 @@ def _part_csv(rep, tier, seed):
         tb = traceback.format_exc(limit=8)
         fl.add("levelcsv-exception", lambda: {"what": "read_constraints_from_csv raised on the shipped level_constraints.csv", "inputs": {"csv_file": path},
                                               "expected": "no exception", "observed": tb})
+    try:
+        na_ship = _csv_alias_probe(ct, ct.read_constraints_from_csv(path), model, fl, {"csv_file": path}, "levelcsv", path)  # a fresh read, never the live table
+    except Exception:
+        na_ship = 0  # (reported above)
+    rep.extra_coverage["C17_shipped_csv_cells_probed_for_aliasing"] = na_ship
     if lc is not None:
         n2 = _compare_csv(ct, lc.LEVEL_CONSTRAINTS, model, fl, {"csv_file": path, "table": "vc2_conformance.level_constraints.LEVEL_CONSTRAINTS"}, "leveltable")
     total.merge(fl)
@@ -1944,6 +2319,17 @@ def _samples_valueset(ct):
     return out
 
 
+def _samples_multivar(ct):
+    out = []
+    for ops in ([("new", "a", (1,)), ("plus", "b", "a", "E"), ("addv", "b", 0)],
+                [("new", "a", ((1, 2),)), ("new", "b", (0,)), ("plus", "a", "a", "b"), ("addr", "b", 2, 3)]):
+        env = {}
+        for op in ops:
+            _pv_real_step(ct, env, op)
+        out.append("%s -> %s" % ("; ".join(_pv_text(o) for o in ops), ", ".join("%s = %s" % (n, env[n]) for n in sorted(env))))
+    return out
+
+
 def _samples_pairs(ct):
     out = []
     for a, b in ((((0, 6),), ((2, 3),)), ((1, (3, 4)), (2, (5, 6))), (((0, 2),), ((3, 4),))):
@@ -2067,11 +2453,16 @@ REGISTER = {
             "special shape 'separated ranges, then one bridging atom' in 3-4 build modes; ranges always have lo <= hi "
             "(a reversed range is outside the bound; see C17_observations_outside_the_checked_bounds); strings only as single values; bool/IntEnum members only where they "
             "compare as integers; values of mutually incomparable types (a string against an integer range) are outside the bound",
+            "multi-variable programs: universe 0..3, <= 3 variables, exhaustive to 3 steps (full alphabet, constructions of <= 1 atom), 4 steps over a reduced alphabet (quick "
+            "tier: only those ending in an addition after a union/copy; thorough: all, plus such 5-step programs), seeded random programs of 5..10 steps over 0..4. An operation "
+            "is taken to change the denotation of its target variable only (no two variables ever share state: the class has no operation documented as returning an operand); "
+            "the columns (dicts) inside the list returned by filter_constraint_table ARE the table's own entries by design ('the subset of constraint_table entries'), so only "
+            "the list itself is required to be the caller's",
             "equality of ValueSets is checked for soundness only (== implies same set); neither the property nor the docstrings promise that equal sets compare equal, and they do not",
-            "constraint tables (columns x keys over universe), quick tier: exhaustive 1x1, 1x2, 1x3, 2x1 over 0..3, 2x2 over 0..3 and 3x2 over 0..2 up to column order, 2x3 over 0..1; "
-            "seeded samples of 2x3 over 0..2 (5000 tables) and over 0..3 (2000), 3x3 over 0..2 (1000). Thorough tier: exhaustive 2x2 over 0..3, 2x3 over 0..2, 3x3 over 0..1, 2x2 over 0..4 and 3x2 over 0..2 "
+            "constraint tables (columns x keys over universe), quick tier: exhaustive 1x1, 1x2, 1x3, 2x1 over 0..3, 2x2 over 0..3 up to column order, 2x3 over 0..1; "
+            "seeded samples of 3x2 over 0..2 (15000 tables), 2x3 over 0..2 (5000) and over 0..3 (2000), 3x3 over 0..2 (1000). Thorough tier: exhaustive 2x2 over 0..3, 2x3 over 0..2, 3x3 over 0..1, 2x2 over 0..4 and 3x2 over 0..2 "
             "up to column order; seeded samples of 2x3 over 0..3 (250000), 3x2 over 0..3 (300000), 3x3 over 0..2 (100000). Tables with AnyValue cells / missing keys / catch-all "
-            "columns: exhaustive up to 2x2 over 0..2, 2x3 and 3x2 over 0..1; sampled 2x3 over 0..2 (3000; thorough 150000, also 3x3 over 0..1 and 3x2 over 0..2). String keys. The exact "
+            "columns: exhaustive up to 2x2 over 0..2 and 3x2 over 0..1 (thorough also 2x3 over 0..1); sampled 2x3 over 0..1 (10000, quick) and over 0..2 (3000; thorough 150000, also 3x3 over 0..1 and 3x2 over 0..2). String keys. The exact "
             "counts of each run are in the domain strings",
             "the validator clause runs the real assert_level_constraint with the module global LEVEL_CONSTRAINTS (in decoder/assertions.py and level_constraints.py) replaced by the "
             "enumerated table (a canary confirms the replacement is effective; the real table is restored in a finally) and, separately, with the real table; every sequence starts "
